@@ -1,26 +1,8 @@
-import RtenVerif.Model.ShapeInfer
+import RtenVerif.Model.ShapeExec
 
 /-! Helper definitions and lemmas for C10: concrete reference semantics (`exec`) and the
 agreement relation between an inferred symbolic tensor and an executed tensor. -/
 namespace RtenVerif.ShapeInfer
-
-/-- An executed tensor, as far as shape inference can talk about it: rank-0 / rank-1 integer
-tensors with their elements, or any tensor by its shape only. -/
-inductive CT
-  | scalar (v : Int)
-  | vector (vs : List Int)
-  | shaped (ds : List Int)
-  deriving Repr, DecidableEq
-
-def CT.dims : CT → List Int
-  | .scalar _ => []
-  | .vector vs => [(vs.length : Int)]
-  | .shaped ds => ds
-
-def CT.values : CT → Option (List Int)
-  | .scalar v => some [v]
-  | .vector vs => some vs
-  | .shaped _ => none
 
 def evalList (σ : Env) (es : List Sym) : Option (List Int) := mapO (Sym.eval σ) es
 
@@ -34,19 +16,6 @@ def Agrees (σ : Env) : STn → CT → Prop
 
 /-! ### Reference semantics of element-wise binary operators on rank ≤ 1 integer tensors
 (NumPy broadcasting: equal lengths, or one side of length 1). -/
-
-def czip (f : Int → Int → Option Int) (l r : List Int) : Option (List Int) :=
-  match l, r with
-  | [x], r => mapO (fun y => f x y) r
-  | l, [y] => mapO (fun x => f x y) l
-  | l, r => if l.length = r.length then mapO (fun (p : Int × Int) => f p.1 p.2) (List.zip l r) else none
-
-def execBinary (f : Int → Int → Option Int) : CT → CT → Option CT
-  | .scalar x, .scalar y => (f x y).map CT.scalar
-  | a, b =>
-    match a.values, b.values with
-    | some l, some r => (czip f l r).map CT.vector
-    | _, _ => none
 
 /-- The symbolic element rule `op` is a homomorphism for the concrete element function `f`. -/
 def OpHom (σ : Env) (op : Sym → Sym → Option Sym) (f : Int → Int → Option Int) : Prop :=
